@@ -225,6 +225,8 @@ type Scenario struct {
 	AnnualTemp           float64
 	PotMin               int
 	PrecipCorr           bool
+	PrivateTexture       string            `json:",omitempty"` // a texture class that only the project's own parameter folder defines (rows copied from PrivateTextureLike); the first horizon uses it
+	PrivateTextureLike   string            `json:",omitempty"`
 	ReducedTablesWithout string            // the project runs with a parameter folder of its own whose texture tables lack this texture
 	AliasCrops           map[string]string // crop code of the built-in table without a shipped parameter file -> shipped crop whose parameter file the project supplies under that name
 	AlwaysPreco          bool              // write the monthly precipitation-correction table even if the correction is off (a batch line may switch it on)
